@@ -651,11 +651,12 @@ func runC13(c *core.Ctx) error {
 
 	// the witnesses of the known findings are compiled together with the first batch
 	type witness struct {
-		f   core.Finding
-		cs  c13Case
-		rt  string
-		sd  uint64
-		cmp bool
+		f    core.Finding
+		cs   c13Case
+		rt   string
+		sd   uint64
+		cmp  bool
+		hist *c13OpsCase // the witness is a call history
 	}
 	var wits []witness
 	nBatches := c.Pick(2, 12) // thorough: per worker (cmd/vcheck runs several, each with its own seed)
@@ -694,12 +695,23 @@ func runC13(c *core.Ctx) error {
 				if f.Status != "known" || !strings.HasPrefix(f.Witness, "c13 ") {
 					continue
 				}
+				if strings.Contains(f.Witness, " ops 0 OPS ") {
+					// a call history (the builders as state machines)
+					h, err := parseC13OpsLine(f.Witness, idx)
+					if err != nil {
+						return fmt.Errorf("witness of %s cannot be parsed: %w", f.Signature, err)
+					}
+					idx++
+					wits = append(wits, witness{f: f, cs: c13Case{g: h.g}, hist: h})
+					tss = append(tss, h.g)
+					continue
+				}
 				cs, rt, sd, cmp, err := parseC13Line(f.Witness, idx)
 				if err != nil {
 					return fmt.Errorf("witness of %s cannot be parsed: %w", f.Signature, err)
 				}
 				idx++
-				wits = append(wits, witness{f, cs, rt, sd, cmp})
+				wits = append(wits, witness{f: f, cs: cs, rt: rt, sd: sd, cmp: cmp})
 				tss = append(tss, cs.g)
 			}
 		}
@@ -714,7 +726,17 @@ func runC13(c *core.Ctx) error {
 		if b == 0 {
 			for _, w := range wits {
 				fired := map[string]bool{}
-				if w.cmp {
+				if w.hist != nil {
+					if live[w.cs.g.Index] {
+						genObs, bindObs, err := w.hist.run()
+						if err == nil {
+							err = w.hist.judge(genObs, bindObs, func(sig string, _ core.Replay) { fired[sig] = true })
+						}
+						if err != nil {
+							return fmt.Errorf("witness of %s cannot be replayed: %w", w.f.Signature, err)
+						}
+					}
+				} else if w.cmp {
 					fired[c13SigCompile] = !live[w.cs.g.Index]
 				} else if live[w.cs.g.Index] {
 					sd := w.sd
@@ -924,12 +946,14 @@ func c13Retry(c *core.Ctx, compiled []*core.GenTS, skip func(*core.GenTS) bool, 
 // panics) and build the same node - the one of the accepted calls only.
 func c13Histories(c *core.Ctx, compiled []*core.GenTS, skip func(*core.GenTS) bool, cfg core.SchemaCfg, report func(string, core.Replay)) error {
 	type hcase struct {
-		g       *core.GenTS
-		t       *core.SType
-		ops     []core.AsmOp
-		want    string
-		payload string
-		bind    string
+		g        *core.GenTS
+		t        *core.SType
+		ops      []core.AsmOp
+		want     string
+		payload  string
+		bind     string
+		plain    bool
+		corrOnly bool // no prescribed outcome: the history is run against the model only
 	}
 	var hs []hcase
 	var reqs []core.GenRequest
@@ -943,10 +967,34 @@ func c13Histories(c *core.Ctx, compiled []*core.GenTS, skip func(*core.GenTS) bo
 			if t.K != "map" && t.K != "list" && t.K != "struct" {
 				continue
 			}
-			for k := 0; k < 2; k++ {
+			for k := 0; k < 3; k++ {
 				v := core.GenInhabitant(t, r, cfg, true)
-				ops := core.GenHistory(core.TypeInput(v), r, k == 0, true)
-				h := hcase{g: g, t: t, ops: ops, want: "built " + v.Term(), payload: core.OpsLine(ops)}
+				if k == 2 {
+					// a struct key that is no field (plain structs only): what happens is pinned by the typed-assembler model alone - the
+					// reflection binding accepts the name and refuses every value for it, generated code refuses the name - so the history is
+					// run for the correspondence only
+					if t.K != "struct" || !core.PlainType(t) {
+						continue
+					}
+					ops := unknownFieldTail(core.GenHistory(core.TypeInput(v), r, false, true), r)
+					if ops == nil {
+						continue
+					}
+					h := hcase{g: g, t: t, ops: ops, payload: core.OpsLine(ops), plain: true, corrOnly: true}
+					bp, err := binds.proto(g, t.Name, "type")
+					if err != nil {
+						continue
+					}
+					h.bind = core.GenObserve(bp, "ops", h.payload, 0)
+					hs = append(hs, h)
+					reqs = append(reqs, core.GenRequest{Pkg: g.Index, Type: t.Name, Level: "type", Route: "ops", Payload: h.payload})
+					continue
+				}
+				// where every position holds exactly one kind (the plain fragment) the refused calls also come at VALUE
+				// positions: kinds the position cannot hold, and AssignNode of a container refused part of the way through
+				plain := core.PlainType(t)
+				ops := core.GenHistoryOpts(core.TypeInput(v), r, core.HistoryOpts{Inject: k == 0, WrongKindValues: k == 0 && plain, RefusedAssignNode: k == 0 && plain})
+				h := hcase{g: g, t: t, ops: ops, want: "built " + v.Term(), payload: core.OpsLine(ops), plain: plain}
 				bp, err := binds.proto(g, t.Name, "type")
 				if err != nil {
 					continue
@@ -972,6 +1020,11 @@ func c13Histories(c *core.Ctx, compiled []*core.GenTS, skip func(*core.GenTS) bo
 	}
 	for i, h := range hs {
 		caseID := fmt.Sprintf("c13 %s TYPE %s type ops 0 OPS %s", h.g.Tokens(), h.t.Name, h.payload)
+		if h.corrOnly {
+			c.Count(caseID, true)
+			c.Dist("histories:struct-unknown-field-name")
+			continue
+		}
 		injected := 0
 		for _, op := range h.ops {
 			if op.Expect != "ok" {
@@ -1006,6 +1059,14 @@ func c13Histories(c *core.Ctx, compiled []*core.GenTS, skip func(*core.GenTS) bo
 						report("C13/gen-keyAsmDupMapKey", core.Replay{Kind: "oracle", Case: caseID, Impl: obs, Expected: fmt.Sprintf("call %d (%s) → refused", j, op.Tokens())})
 						return calls, final, true // what follows in this history is the consequence
 					}
+					if engine == "gen" && j > 0 && h.ops[j-1].Expect == "e:refusedNode" && class(calls[j-1]) == "refused" &&
+						(op.Kind == "BM" || op.Kind == "BL" || op.Kind == "A" || op.Kind == "AN") && (got == "panic" || got == "refused") {
+						// the recorded finding, exactly: a generated assembler that refused AssignNode of a map/list node part of the way
+						// through stays "begun"; the next Begin*/Assign* on that same assembler panics (or is refused)
+						report("C13/gen-refused-assignnode-wedges-builder", core.Replay{Kind: "oracle", Case: caseID, Impl: obs, Expected: fmt.Sprintf("call %d (%s) → ok", j, op.Tokens()),
+							Detail: "after a refused AssignNode the builder is as before: the legal history that follows is accepted call by call"})
+						return calls, final, true // what follows in this history is the consequence
+					}
 					report("C13/history-"+engine+"-call-outcome", core.Replay{Kind: "oracle", Case: caseID, Impl: obs, Expected: fmt.Sprintf("call %d (%s) → %s", j, op.Tokens(), want),
 						Detail: "the builder contract: a legal call succeeds, a repeated key or an unacceptable kind is refused by that call, and the builder stays usable"})
 					return calls, final, false
@@ -1023,10 +1084,166 @@ func c13Histories(c *core.Ctx, compiled []*core.GenTS, skip func(*core.GenTS) bo
 			report("C13/engines-disagree-on-call-history", core.Replay{Kind: "oracle", Case: caseID, Impl: "gen=" + answers[i] + "  bindnode=" + h.bind, Expected: h.want})
 		}
 	}
+	// (D) the typed-assembler machine (Model/TypedAssembler.lean; theorems Props/C12typed.lean): for the types of the plain
+	// fragment every history is also run on the model, once per engine - the reflection binding call by call with its error
+	// classes, generated code (Engine.gen: its named deviations set) for accepted / refused / repeated key and the node built
+	var lines []string
+	var idx []int
+	for i, h := range hs {
+		if h.plain {
+			lines = append(lines, core.TasmLine("bindnode", h.t, h.ops), core.TasmLine("gen", h.t, h.ops))
+			idx = append(idx, i)
+		}
+	}
+	model, err := core.RunDriver(lines)
+	if err != nil {
+		return err
+	}
+	for n, i := range idx {
+		h := hs[i]
+		c.Dist("histories-on-typed-assembler-model")
+		for e, eng := range []struct{ name, obs string }{{"bindnode", h.bind}, {"gen", answers[i]}} {
+			f := strings.SplitN(eng.obs, "\t", 2)
+			if f[0] != "ops" || len(f) != 2 {
+				continue // a panic outside the calls: reported above
+			}
+			if d := core.TasmCompare(f[1], model[2*n+e], eng.name == "bindnode"); d != "" {
+				report("C13/corr-typed-assembler", core.Replay{Kind: "correspondence", Case: lines[2*n+e], Impl: eng.obs, Model: model[2*n+e],
+					Detail: d + "; engine " + eng.name + "; history " + fmt.Sprintf("c13 %s TYPE %s type ops 0 OPS %s", h.g.Tokens(), h.t.Name, h.payload)})
+			}
+		}
+	}
 	return nil
 }
 
+// A call history as a case line: `c13 <type system> TYPE <name> <level> ops 0 OPS <calls>` (c13Histories, c13Retry).
+type c13OpsCase struct {
+	line    string
+	g       *core.GenTS
+	t       *core.SType
+	lvl     string
+	ops     []core.AsmOp
+	payload string
+}
+
+func parseC13OpsLine(line string, idx int) (*c13OpsCase, error) {
+	f := strings.Fields(line)
+	if len(f) < 3 || f[0] != "c13" {
+		return nil, fmt.Errorf("bad C13 case line")
+	}
+	g, rest, err := core.ParseGenTS(idx, f[1:])
+	if err != nil {
+		return nil, err
+	}
+	if len(rest) < 7 || rest[0] != "TYPE" || rest[3] != "ops" || rest[5] != "OPS" {
+		return nil, fmt.Errorf("bad C13 history line: want TYPE <name> <level> ops 0 OPS <calls>")
+	}
+	t := g.TypeByName(rest[1])
+	if t == nil {
+		return nil, fmt.Errorf("no type %s in the type system", rest[1])
+	}
+	ops, err := core.ParseOps(rest[6:])
+	if err != nil {
+		return nil, err
+	}
+	return &c13OpsCase{line: line, g: g, t: t, lvl: rest[2], ops: ops, payload: strings.Join(rest[6:], " ")}, nil
+}
+
+// run executes the history on both engines (the type system must be compiled).
+func (h *c13OpsCase) run() (genObs, bindObs string, err error) {
+	ans, err := core.RunGen([]core.GenRequest{{Pkg: h.g.Index, Type: h.t.Name, Level: h.lvl, Route: "ops", Payload: h.payload}})
+	if err != nil {
+		return "", "", err
+	}
+	binds := &c13Binds{protos: map[string]datamodel.NodePrototype{}}
+	bp, err := binds.proto(h.g, h.t.Name, h.lvl)
+	if err != nil {
+		return "", "", err
+	}
+	return ans[0], core.GenObserve(bp, "ops", h.payload, 0), nil
+}
+
+// judge: the executed history - at type level, for a type of the plain fragment - against the typed-assembler model: each
+// engine against the model of that engine (correspondence) and against the contract's machine (`ideal`: which calls are
+// accepted, which refused, the node built), a deviation of generated code classified by the model's named flag; outside the
+// model the engines against each other.
+func (h *c13OpsCase) judge(genObs, bindObs string, report func(string, core.Replay)) error {
+	cut := func(obs string) (string, bool) {
+		p := strings.SplitN(obs, "\t", 2)
+		return p[len(p)-1], len(p) == 2 && p[0] == "ops"
+	}
+	go_, ok1 := cut(genObs)
+	bo, ok2 := cut(bindObs)
+	if !ok1 || !ok2 {
+		report("C13/history-panics", core.Replay{Kind: "oracle", Case: h.line, Impl: "gen=" + genObs + "  bindnode=" + bindObs})
+		return nil
+	}
+	if h.lvl != "type" || !core.PlainType(h.t) {
+		if d := core.TasmCompare(go_, bo, false); d != "" {
+			report("C13/engines-disagree-on-call-history", core.Replay{Kind: "oracle", Case: h.line, Impl: "gen=" + genObs + "  bindnode=" + bindObs, Detail: d})
+		}
+		return nil
+	}
+	model, err := core.RunDriver([]string{core.TasmLine("ideal", h.t, h.ops), core.TasmLine("bindnode", h.t, h.ops), core.TasmLine("gen", h.t, h.ops)})
+	if err != nil {
+		return err
+	}
+	for _, e := range []struct {
+		name, obs, model string
+		exact            bool
+	}{{"bindnode", bo, model[1], true}, {"gen", go_, model[2], false}} {
+		if d := core.TasmCompare(e.obs, e.model, e.exact); d != "" {
+			report("C13/corr-typed-assembler", core.Replay{Kind: "correspondence", Case: core.TasmLine(e.name, h.t, h.ops), Impl: e.obs, Model: e.model, Detail: d + "; engine " + e.name + "; history " + h.line})
+		}
+		if d := core.TasmCompare(e.obs, model[0], false); d != "" {
+			sig := "C13/history-" + e.name + "-call-outcome"
+			if e.name == "gen" && strings.Contains(e.model, "unclaimed") {
+				sig = "C13/gen-refused-assignnode-wedges-builder"
+			} else if e.name == "gen" && core.TasmCompare(e.obs, e.model, false) == "" && core.TasmEngineFlag(e.model, model[0]) {
+				sig = "C13/gen-keyAsmDupMapKey"
+			}
+			report(sig, core.Replay{Kind: "oracle", Case: h.line, Impl: e.obs, Expected: model[0], Detail: d + " (expected: the contract's machine, `tasm.run ideal`)"})
+		}
+	}
+	return nil
+}
+
+// replayC13Ops re-executes one call history (also a `tasm.run` correspondence case, whose detail names the history): the type
+// system is generated and compiled afresh, the history runs on both engines and is judged as above.
+func replayC13Ops(c *core.Ctx, line string) error {
+	h, err := parseC13OpsLine(line, 0)
+	if err != nil {
+		return err
+	}
+	unlock, err := core.GenLock()
+	if err != nil {
+		return err
+	}
+	defer unlock()
+	defer core.GenCleanup()
+	compiled, err := c13Compile(c, []*core.GenTS{h.g}, c.Fail, false)
+	if err != nil || len(compiled) == 0 {
+		return err
+	}
+	genObs, bindObs, err := h.run()
+	if err != nil {
+		return err
+	}
+	c.Count(line, true)
+	c.Sample(map[string]string{"case": line, "gen": genObs, "bindnode": bindObs})
+	return h.judge(genObs, bindObs, c.Fail)
+}
+
 func replayC13(c *core.Ctx, rp core.Replay) error {
+	if strings.HasPrefix(rp.Case, "tasm.run ") {
+		if i := strings.Index(rp.Detail, "history c13 "); i >= 0 {
+			return replayC13Ops(c, rp.Detail[i+8:])
+		}
+		return fmt.Errorf("a tasm.run case needs the history line in its detail")
+	}
+	if strings.Contains(rp.Case, " ops 0 OPS ") {
+		return replayC13Ops(c, rp.Case)
+	}
 	cs, route, seed, compileOnly, err := parseC13Line(rp.Case, 0)
 	if err != nil {
 		return err
